@@ -29,6 +29,7 @@ type Track struct {
 	Name  string `json:"name"`
 	Asset string `json:"asset"` // directory under testdata with init_org<ext> and 0<ext>
 	Ext   string `json:"ext"`
+	Media string `json:"media"` // video | audio | text
 }
 
 type Scenario struct {
@@ -38,6 +39,9 @@ type Scenario struct {
 	RepCfg     bool     `json:"repcfg"`
 	Sequential bool     `json:"sequential"` // reference run: one upload after the other
 	Rounds     int      `json:"rounds"`
+	// Register > 0: no HTTP; that many rounds of addTrData for the tracks (Media gives the content type)
+	// called from one goroutine per track, released by a barrier, on a fresh channel each round
+	Register int `json:"register,omitempty"`
 }
 
 type Outcome struct {
@@ -49,6 +53,10 @@ type Outcome struct {
 	Tracks     map[string][]string `json:"tracks"`
 	Files      map[string][]string `json:"files"` // channel -> sorted "track/file"
 	MPDs       map[string]bool     `json:"mpds"`
+	Masters    map[string]string   `json:"masters"` // channel -> masterTrName
+	TrIDs      map[string][]string `json:"trids"`
+	// Register scenarios: number of rounds per (master, keys, trIDs) outcome
+	RegOutcomes map[string]int `json:"reg_outcomes,omitempty"`
 }
 
 const testdata = "/repo/cmd/cmaf-ingest-receiver/app/testdata/"
@@ -128,7 +136,8 @@ func runOnce(si, round int, sc Scenario) Outcome {
 		inits[tr.Name] = b
 		segs[tr.Name] = segment(tr, 1)
 	}
-	out := Outcome{Scenario: si, Round: round, Statuses: map[string]int{}, Tracks: map[string][]string{}, Files: map[string][]string{}, MPDs: map[string]bool{}}
+	out := Outcome{Scenario: si, Round: round, Statuses: map[string]int{}, Tracks: map[string][]string{}, Files: map[string][]string{}, MPDs: map[string]bool{},
+		Masters: map[string]string{}, TrIDs: map[string][]string{}}
 	var mu sync.Mutex
 	start := make(chan struct{})
 	var wg sync.WaitGroup
@@ -164,6 +173,10 @@ func runOnce(si, round int, sc Scenario) Outcome {
 	out.Channels = rcv.ChannelNames()
 	for _, chn := range sc.Channels {
 		out.Tracks[chn] = rcv.TrackNames(chn)
+		if tt, ok := rcv.TrackTable(chn); ok {
+			out.Masters[chn] = tt.Master
+			out.TrIDs[chn] = tt.TrIDs
+		}
 		var files []string
 		for _, tr := range sc.Tracks {
 			ents, _ := os.ReadDir(filepath.Join(storage, chn, tr.Name))
@@ -197,6 +210,22 @@ func main() {
 		first, _ = strconv.Atoi(os.Args[2])
 	}
 	for si := first; si < len(scs); si++ {
+		if scs[si].Register > 0 {
+			fmt.Fprintf(os.Stderr, "@@ scenario %d register\n", si)
+			var names, types []string
+			for _, t := range scs[si].Tracks {
+				names = append(names, t.Name)
+				types = append(types, t.Media)
+			}
+			o := Outcome{Scenario: si, RegOutcomes: map[string]int{}}
+			for r := 0; r < scs[si].Register; r++ {
+				tt := app.VerifRegisterConcurrently(names, types, scs[si].Sequential)
+				o.RegOutcomes[fmt.Sprintf("master=%s keys=%v trIDs=%v", tt.Master, tt.Keys, tt.TrIDs)]++
+			}
+			b, _ := json.Marshal(o)
+			fmt.Printf("@@O %s\n", b)
+			continue
+		}
 		for r := 0; r < scs[si].Rounds; r++ {
 			fmt.Fprintf(os.Stderr, "@@ scenario %d round %d\n", si, r)
 			o := runOnce(si, r, scs[si])
